@@ -47,7 +47,7 @@ def _solo_child(world, steps, overrides, calc_cfg):
         pre = {}
         if op.get("op") in ("zero", "elev", "fire"):
             w = b.weapon(world["shots"][op["shot"]]["weapon"])
-            pre["zero"] = fhex(w.zero_elevation.raw_value)
+            pre["zero"] = float(w.zero_elevation.raw_value).hex()
         if op.get("op") == "powder":
             pre["tm"] = fhex(float(b.ammo(op["ammo"]).temp_modifier))
         try:
@@ -63,7 +63,7 @@ def solo(world, steps, overrides, calc_cfg, timeout=300):
     return run_in_fork(_solo_child, (world, steps, overrides, calc_cfg), timeout=timeout)
 
 
-SKIP_COMPARE = ADMIN_OPS
+SKIP_COMPARE = ADMIN_OPS - {"gstep"}      # the global step setter takes a float-or-quantity: it is compared
 
 
 def evaluate(spec, hist, compare_admin=False):
